@@ -378,4 +378,4 @@ def coq_term_eq(case):
     hs = 'false' if lk == 'none' else 'true'
     t = {'D': 'd_eq_case %s repaired' % hs, 'U': 'u_eq_case %s repaired' % hs, 'DM': 'dm_eq_case repaired', 'UM': 'um_eq_case repaired true',
          'DW': 'dw_eq_case repaired', 'UW': 'uw_eq_case repaired true'}[cls]
-    return '[%s %s %s %s]' % (t, n, la, lb)
+    return '[[%s %s %s %s]]' % (t, n, la, lb)
